@@ -151,11 +151,22 @@ def run(ck):
             tl["ok"] += 1
             continue
         tl["differs"] += 1
+        # decided on the case: the difference is exactly one recorded omission (the expectation with that marker removed is
+        # what the binary says)
+        fid = None
+        mm = re.match(r"DISAGREE expected=(.*) \| observed=(.*)$", m)
+        if mm:
+            for k in ck.known:
+                mt = k.get("match", {})
+                if mt.get("kind") == "expected-minus-marker-is-observed" and mt.get("backend") == be and mt["marker"] in mm.group(1) \
+                        and mm.group(1).replace(mt["marker"], "") == mm.group(2):
+                    fid = k["id"]
         key = ("diff", be)
-        if key in reported:
+        if fid is None and key in reported:
             continue
-        reported.add(key)
-        ck.violation({"kind": "binding-or-interface-differs", "backend": t, "observed": i[:2000], "expected_or_verdict": m[:3000],
+        if fid is None:
+            reported.add(key)
+        ck.violation({"kind": "binding-or-interface-differs", "finding": fid, "backend": t, "observed": i[:2000], "expected_or_verdict": m[:3000],
                       "case": cs[:3000], "wgsl": unq(s[1:-1]),
                       "how": "the bindings / interface the back end emitted differ from what the WGSL attributes and the supplied "
                              "binding map prescribe"}, found_input=True)
